@@ -187,7 +187,7 @@ def check(ctx, rep):
             rep.violation("transcript", fn, "anchor", "function not found")
             return
         b = util.bexpr(ctx, se, se.ret)
-        rep.check(b == want, "transcript", fn, "sha1", "%s = %s" % (why, show_b(b)), "%s: expected %s, found %s" % (why, show_b(want), show_b(b)), se.body.loc())
+        rep.check(b == util.cb(want), "transcript", fn, "sha1", "%s = %s" % (why, show_b(b)), "%s: expected %s, found %s" % (why, show_b(want), show_b(b)), se.body.loc())
 
     xor = fb.const_bytes("srp_internal::PRECALCULATED_XOR_HASH")
     transcript("srp_internal::calculate_client_proof", ("H", (("const", xor), ("H", (("text", P(1)),)), P(5), P(3), P(4), P(2))), "M1 binds U, salt, A, B, K whole")
